@@ -249,3 +249,22 @@ Proof.
   - now apply resolves_under_registration_package.
   - now apply producers_resolve_alike.
 Qed.
+
+(* ---- compileFilterFuncs: for a file that has custom declarations and a loader that was given no rules package, every
+   successful way out of the function lies behind the installation of the stand-in (and there is one) *)
+Lemma gen_cff_ok : cff_ok gen_cff_steps = true.
+Proof. vm_compute. reflexivity. Qed.
+
+Lemma gen_stand_in_on_every_success :
+  (forall e, In e (cff_exits true false gen_cff_steps) -> fst e = true -> snd e = true)
+  /\ (exists e, In e (cff_exits true false gen_cff_steps) /\ fst e = true).
+Proof. exact (stand_in_on_every_success gen_cff_steps gen_cff_ok). Qed.
+
+(* ---- the printer's domain: lists of strings that it writes reflectively get their elements from strings.Fields only
+   (no element of its result is empty: the documented contract of strings.Fields, trusted) *)
+Definition producer_yields_nonempty (p : string) : bool := String.prefix "strings.Fields(" p.
+
+Lemma gen_string_lists_have_no_empty_element :
+  gen_irconv_string_list_producers <> []
+  /\ forallb (fun fp : string * string => producer_yields_nonempty (snd fp)) gen_irconv_string_list_producers = true.
+Proof. split; [discriminate|vm_compute; reflexivity]. Qed.
